@@ -7,7 +7,16 @@
   present, the hydrogen are passed over — the permutation is odd iff `j + hasH` is odd.  Reading puts the
   hydrogen back before the preceding atom: one more transposition iff `hasH`.
 
-  PARTIAL (stage 1).  Proved here, for every atom kind, every bond list and every entry position: the
+  PARTIAL (stages 1 and 2).
+
+  Stage 2, `stereo_forest`: for EVERY well-formed adjacency list whose traversal meets no ring closure
+  (all forests) the complete round trip walk → write → read → build gives every atom its original kind
+  (up to the C07 shorthands) with the `@`/`@@` mark flipped iff the bond it was entered through sits at an
+  odd index of its bond list — exactly the sign of the permutation that moves that bond to the front of
+  its neighbour order (C12 `substituent_order_forest` gives the re-read order); component roots keep their
+  mark.  Rings are stage 3 (in progress) and stay on the geometric oracle and the correspondence.
+
+  Stage 1, proved for every atom kind, every bond list and every entry position: the
   walker's local obligation (the kind it hands to the follower), the builder's, and their composition —
   the mark an atom ends up with after write + read is flipped iff the entry index is odd, and every
   configuration other than the `@`/`@@` pairs is carried unchanged.  The lift to whole graphs (every
@@ -17,8 +26,45 @@
   orders, hydrogen included).
 -/
 import Purr.Lemmas.StereoL
+import Purr.Props.C01
 namespace Purr.C03
-open Purr
+open Purr Purr.Spec
+
+/-- STAGE 2.  Stereo marks through the whole round trip of a forest. -/
+theorem stereo_forest (g : Graph) (hw : WellFormed g) (es : List (Event × Nat)) (ord : List Nat)
+    (h : walkRecL g = some (es, ord)) (hj : ∀ e ∈ es, isJoin e = false) (hne : es ≠ []) :
+    ∃ t g', write? (es.map (·.1)) = some t ∧ (read t).2 = .ok ∧ build? (read t).1 = some (.ok g') ∧
+      ∀ x atomX, g[x]? = some atomX → ∃ atom', g'[pos ord x]? = some atom' ∧
+        ((atom'.kind = atomX.kind.norm ∧ atom'.bonds = atomX.bonds.map (fun b => ⟨b.kind, pos ord b.tid⟩)) ∨
+         ∃ pre back post, atomX.bonds = pre ++ back :: post ∧ (∀ o ∈ pre, o.tid ≠ back.tid) ∧
+           (∀ o ∈ post, o.tid ≠ back.tid) ∧
+           atom'.bonds = (back :: (pre ++ post)).map (fun b => ⟨b.kind, pos ord b.tid⟩) ∧
+           atom'.kind = (flipN pre.length atomX.kind).norm) := by
+  obtain ⟨t, g1, hw', hok, hb, hrel, hnd, hcov⟩ := C01.roundtrip_forest_relabelled g hw es ord h hj hne
+  refine ⟨t, g1.map normAtom, hw', hok, hb, ?_⟩
+  intro x atomX hgx
+  have hx : x ∈ ord := (hcov x).mp (by
+    apply Nat.lt_of_not_le; intro hge
+    rw [List.getElem?_eq_none_iff.mpr hge] at hgx; cases hgx)
+  obtain ⟨atomX', hgx', hd⟩ := hrel.detail x hx
+  rw [hgx] at hgx'; cases hgx'
+  rcases hd with hd | ⟨q, pre, back, post, _, h1, h2, h3, h4, hd⟩
+  · exact ⟨_, by rw [List.getElem?_map, hd]; rfl, Or.inl ⟨rfl, rfl⟩⟩
+  · subst h2
+    exact ⟨_, by rw [List.getElem?_map, hd]; rfl, Or.inr ⟨pre, back, post, h1, h3, h4, rfl, rfl⟩⟩
+
+/-- normalisation (the C07 shorthands) acts on the configuration only by the documented identification of
+    `@`/`@@` for the TH and AL pair, and commutes with flipping: a flipped mark stays flipped -/
+theorem norm_configuration (iso : Option Number) (sym : BracketSymbol) (cfg : Option Configuration)
+    (hh : Option VirtualHydrogen) (q : Option Charge) (m : Option Number) :
+    (AtomKind.bracket ⟨iso, sym, cfg, hh, q, m⟩).norm = .bracket ⟨iso, sym, cfg.map Configuration.norm, hnorm hh, q, m⟩ := rfl
+
+theorem norm_flip_commute (c : Configuration) : c.flip.norm = c.norm.flip := by
+  cases c <;> rfl
+
+theorem norm_only_shorthand (c : Configuration) :
+    c.norm = c ∨ (c = .AL1 ∧ c.norm = .TH1) ∨ (c = .AL2 ∧ c.norm = .TH2) := by
+  cases c <;> simp [Configuration.norm]
 
 /-- the walker: a child whose only bond back to the atom it is entered from sits at index `j` of its
     bond list is handed to the follower with its `@`/`@@` mark flipped iff `j + hasH` is odd -/
